@@ -212,6 +212,9 @@ func (c *check) Init(tier string, seed int64) (sp engine.Space) {
 	// pending target, both)
 	mainMixes := mixIndexes("page+pages", "fwd-target-counter", "fwd-target-counters", "fwd-target-counter+page")
 	addPaged := func(n int, m []opDef, mname string, mixes []int) {
+		if only := os.Getenv("C19_MIX"); only != "" { // development knob, as C19_ONLY: one mix
+			mixes = mixIndexes(only)
+		}
 		ps := &pagedSpace{n: n, menu: m, shapes: forests(n), mixes: mixes}
 		c.segs = append(c.segs, &segment{name: fmt.Sprintf("paged-%d-%s", n, mname), count: ps.count(), batch: 8,
 			run: func(i int64, ctx *engine.Ctx) { c.runPaged(ctx, ps.at(i), m) },
